@@ -191,22 +191,31 @@ class ASTCFG(dict[str, WritableASTBlock]):
         empty = set()
         for name, block in list(self.items()):
             if not block.instructions:
-                empty.add(self.pop(name))
                 # Empty blocks can only have a single jump target.
                 it = block.jump_targets[0]
+                others = [b for b in self.values() if b is not block]
+                # An empty block must be kept as a no-op, if removing it
+                # would either turn the entry block of the CFG into the
+                # jump target of another block (the genesis block is directly
+                # followed by a loop header), or make the two jump targets of
+                # a predecessor identical (e.g. both arms of an if-statement
+                # are empty).
+                if (
+                    name == "0"
+                    and any(it in b.jump_targets for b in others)
+                ) or any(
+                    name in b.jump_targets and it in b.jump_targets
+                    for b in others
+                ):
+                    block.instructions.append(ast.Pass())
+                    continue
+                empty.add(self.pop(name))
                 # Iterate over the blocks looking for blocks that point to the
                 # removed block. Then rewire the jump_targets accordingly.
                 for b in list(self.values()):
-                    if len(b.jump_targets) == 0:
-                        continue
-                    elif len(b.jump_targets) == 1:
-                        if b.jump_targets[0] == name:
-                            b.jump_targets[0] = it
-                    elif len(b.jump_targets) == 2:
-                        if b.jump_targets[0] == name:
-                            b.jump_targets[0] = it
-                        elif b.jump_targets[1] == name:
-                            b.jump_targets[1] = it
+                    b.jump_targets = [
+                        it if jt == name else jt for jt in b.jump_targets
+                    ]
         self.empty = empty
         return empty
 
